@@ -21,6 +21,7 @@ RULE = (
     "name from required and unbind restores it. Non-trivial: >= 1 required input or entry point; distinct = "
     "(program shape, configuration)."
     ' Graphs with several independent data cycles (grouped in the harness by SCC of the data edges): one listed entry point per cycle is supplied (every combination) and each cycle in turn is left without any of its seeds.'
+    ' Also: every loop template (cycles with interchangeable entry points included); with several listed entry points the call is made with entrypoint=<name> and, when the supplied values fit no entry point with other parameters, without a name; exclusive branches writing one name where the second-listed branch is a chain with an input of its own, under graph-level and run-time selection.'
 )
 ASSUMPTIONS = [
     "the Graph's own report is the claim under test; the run is the judge",
